@@ -63,8 +63,9 @@ def mutation_specs(n, tier, stride_big=4):
         specs.append({"m": "window", "pos": p, "w": 1})
         if tier == "thorough":
             specs.append({"m": "window", "pos": p, "w": 2})
-            specs.append({"m": "window", "pos": p, "w": 3})
-        if tier == "thorough" or p % stride_big == 0:
+            if p % 2 == 0:
+                specs.append({"m": "window", "pos": p, "w": 3})
+        if (tier == "thorough" and p % 2 == 0) or p % stride_big == 0:
             specs.append({"m": "window", "pos": p, "w": 4})
     for p in range(n + 1):
         specs.append({"m": "truncate", "pos": p})
